@@ -644,4 +644,90 @@ theorem recvConn_encodeConn (cap : Nat) (hcap : cap ≤ 2 ^ 28) : ∀ (items : L
         simp only [encodeConn, recvConn, hdec]
         rw [h]
 
+/-! ### a literal representation without its value string -/
+
+theorem decodeValue_nil (cap : Nat) (d : Dec) (kind : Kind) (n : Bytes) (hint : Nat) :
+    decodeValue cap d kind n hint [] = .err .badData d := by
+  simp [decodeValue]
+
+theorem decodeBlock_of_item_err (cap : Nat) (d d' : Dec) (bs : Bytes) (e : Err) (hne : bs ≠ [])
+    (h : decodeItem cap d bs = .err e d') : (decodeBlock cap d bs).err = some e := by
+  simp [decodeBlock, decodeBlockAux_succ, hne, h]
+
+/-- literal name, then nothing: the value string is missing -/
+theorem decodeItem_literal_noValue (cap : Nat) (d : Dec) (kind : Kind) (flag : Nat)
+    (n : Bytes) (hn : Bool) (hfl : flag < 256)
+    (hrepr : ¬ (32 ≤ flag ∧ flag < 64) ∧ reprOf flag = (kind, none))
+    (hkind : kind ≠ .indexed) (hnn : n ≠ []) (hlen : n.length < cap) (hcap : cap ≤ 2 ^ 28) :
+    decodeItem cap d (flag.toUInt8 :: encStr hn n) = .err .badData d := by
+  have hs := decStr_encStr cap hn n [] hlen hcap
+  rw [List.append_nil] at hs
+  have hne : encStr hn n ≠ [] := encStr_ne_nil hn n
+  simp only [decodeItem, toUInt8_toNat_lt flag hfl, hrepr.1, if_false, hrepr.2, hkind, hne, hs, hnn]
+  exact decodeValue_nil cap d kind n 0
+
+/-- name by index, then nothing -/
+theorem decodeItem_nameRef_noValue (cap : Nat) (d : Dec) (kind : Kind) (pbits flag idx : Nat)
+    (n v0 : Bytes)
+    (hmod : flag % 2 ^ pbits = 0) (hfl : flag + 2 ^ pbits ≤ 256) (hp2 : 2 ≤ 2 ^ pbits)
+    (hrepr : ∀ b, flag + 1 ≤ b → b ≤ flag + (2 ^ pbits - 1) →
+      ¬ (32 ≤ b ∧ b < 64) ∧ reprOf b = (kind, some pbits))
+    (hkind : kind ≠ .indexed)
+    (hwf : d.tbl.WF) (hl : d.tbl.lookup idx = some (n, v0)) (hfit : n.length ≤ cap) :
+    decodeItem cap d (encInt pbits flag idx) = .err .badData d := by
+  obtain ⟨hpos, hlt⟩ := Table.lookup_lt hwf hl
+  obtain ⟨hint, hdl⟩ := d.lookup_of_tbl hl
+  obtain ⟨b, tl, he, hb⟩ := encInt_cons pbits flag idx hfl
+  have hd := decInt_encInt pbits flag idx [] hmod hfl (by omega)
+  rw [List.append_nil] at hd
+  rw [he] at hd ⊢
+  have hb1 : flag + 1 ≤ b.toNat := by
+    rw [hb]; have : 1 ≤ min idx (2 ^ pbits - 1) := by
+      generalize 2 ^ pbits = P at *
+      rcases Nat.lt_or_ge idx (P - 1) with h | h
+      · rw [Nat.min_eq_left (by omega)]; omega
+      · rw [Nat.min_eq_right h]; omega
+    omega
+  have hb2 : b.toNat ≤ flag + (2 ^ pbits - 1) := by
+    rw [hb]; have := Nat.min_le_right idx (2 ^ pbits - 1); omega
+  obtain ⟨hnot, hr⟩ := hrepr b.toNat hb1 hb2
+  have hidx : idx ≠ 0 := by omega
+  have h1 : ¬ cap < n.length := by omega
+  simp only [decodeItem, hnot, if_false, hr, hd, hidx, hdl, h1, hkind]
+  exact decodeValue_nil cap d kind n hint
+
+/-- a literal representation without its value string is BAD_DATA, whatever the
+    table state, the name (literal or by index) and the indexing mode -/
+theorem missing_value_badData (cap : Nat) (hcap : cap ≤ 2 ^ 28) (d : Dec) (hwf : d.tbl.WF) :
+    (∀ (flag : Nat) (n : Bytes) (hn : Bool), flag = 0 ∨ flag = 16 ∨ flag = 64 → n ≠ [] →
+      n.length < cap → (decodeBlock cap d (flag.toUInt8 :: encStr hn n)).err = some .badData) ∧
+    (∀ (pbits flag idx : Nat) (n v0 : Bytes),
+      (pbits = 6 ∧ flag = 64) ∨ (pbits = 4 ∧ flag = 16) ∨ (pbits = 4 ∧ flag = 0) →
+      d.tbl.lookup idx = some (n, v0) → n.length ≤ cap →
+      (decodeBlock cap d (encInt pbits flag idx)).err = some .badData) := by
+  constructor
+  · intro flag n hn hf hnn hlen
+    apply decodeBlock_of_item_err cap d d _ _ (by simp)
+    rcases hf with rfl | rfl | rfl
+    · exact decodeItem_literal_noValue cap d .without 0 n hn (by decide) (by simp [reprOf]) (by decide)
+        hnn hlen hcap
+    · exact decodeItem_literal_noValue cap d .never 16 n hn (by decide) (by simp [reprOf]) (by decide)
+        hnn hlen hcap
+    · exact decodeItem_literal_noValue cap d .incr 64 n hn (by decide) (by simp [reprOf]) (by decide)
+        hnn hlen hcap
+  · intro pbits flag idx n v0 hf hl hfit
+    have hne : encInt pbits flag idx ≠ [] := by
+      have hpos : 0 < (encInt pbits flag idx).length := by
+        rcases hf with ⟨rfl, rfl⟩ | ⟨rfl, rfl⟩ | ⟨rfl, rfl⟩ <;>
+          exact encInt_length_pos _ _ idx (by decide)
+      intro h; rw [h] at hpos; simp at hpos
+    apply decodeBlock_of_item_err cap d d _ _ hne
+    rcases hf with ⟨rfl, rfl⟩ | ⟨rfl, rfl⟩ | ⟨rfl, rfl⟩
+    · exact decodeItem_nameRef_noValue cap d .incr 6 64 idx n v0 (by decide) (by decide) (by decide)
+        reprOf_incr (by decide) hwf hl hfit
+    · exact decodeItem_nameRef_noValue cap d .never 4 16 idx n v0 (by decide) (by decide) (by decide)
+        reprOf_never (by decide) hwf hl hfit
+    · exact decodeItem_nameRef_noValue cap d .without 4 0 idx n v0 (by decide) (by decide) (by decide)
+        reprOf_without (by decide) hwf hl hfit
+
 end LtVerif.Hpack
